@@ -19,6 +19,26 @@ CHECKS = {
         "raw numpy.nan only used as a lookup probe.",
         "DESIGN.md §3 C13",
     ),
+    "C01": (
+        "E1-space",
+        "bounded-exhaustive explicit-state search over dataset constructions x configuration deviations; real fit judged by a brute-force reference model",
+        "Every single-feature dataset built from the forced-to-collide cell alphabets (k<=4 raw values, k=5 in thorough) for ordinal, "
+        "quantitative and categorical kinds, with/without a missing-value cell and a dev sample (<=1 cell replaced/removed), under every "
+        "configuration within the stated deviation bound, is fitted by the real Binary/ContinuousCarver; RefCarver re-enumerates every "
+        "contiguous grouping (both stages), recomputes the measure from textbook formulas and three-valued viability with exact rationals, "
+        "and the fitted grouping must be an arg-max among viable candidates (or the drop justified).",
+        "Small-scope: N<=64 rows; base modalities read from an independently fitted Discretizer; chi2 with or without Yates accepted; "
+        "rate ties in rankings and non-dyadic thresholds hit exactly are DONT_CARE (counted in evidence).",
+        "DESIGN.md §3 C01",
+    ),
+    "C02": (
+        "E1-space",
+        "bounded-exhaustive explicit-state search over dataset constructions x configuration deviations; observational oracle on transform output",
+        "Same state space as C01; the oracle only reads transform(X_train)/transform(X_dev): number of labels, exact label frequencies "
+        "against min_freq_mod, missing-value handling per dropna, dev label set / frequencies / ranking by mean target.",
+        "Small-scope: N<=64 rows; frequencies exactly on a non-dyadic threshold and rate ties are DONT_CARE.",
+        "DESIGN.md §3 C02",
+    ),
 }
 
 NOT_BUILT = "check not built yet (work in progress, see DESIGN.md §7 for the order)"
